@@ -47,6 +47,22 @@
 //     ("from run to run") covers it.
 //   - A -race run is not wired into the driver; detection of an unsynchronised
 //     shared write relies on the contention runs.
+//   - Counts of 0 inside a merged_sample map (round 3, zero_test.go): the keys of
+//     the map are the samples of the record, so the record is a node of count 0
+//     of that sample (linked to every one-difference sequence with at least one
+//     read, never a father, weight 0).  Every record keeps at least one read in
+//     total, and the sample/count pair of attributes never carries a 0.
+//   - --distance >= 2 at --ratio 1 (round 3, dist_test.go) IS modelled, edges and
+//     statuses only: second pass over the sequences without one-difference father,
+//     candidates = the sequences after it in the stable sort by count (ties: file
+//     order), number of differences = the one of the LCS kernel of C09
+//     (IUPAC-compatible symbols match).  The previous item "for distance 2..3
+//     nothing is modelled" now only holds for ratio < 1 and for the weights.
+//   - Two-step histories (history_test.go): the sample names and identifiers hold
+//     no quote, semicolon or brace (the OBI style title line cannot carry them);
+//     a run adds a merged_<attribute> map to the records that had none, so
+//     merged_sample / merged_pcr of the second run are compared with the input,
+//     not between the intermediate and the fresh file.
 package c13
 
 import (
@@ -71,12 +87,14 @@ func TestMain(m *testing.M) {
 		evid.Spec{Name: "TestPropExact", Kind: "rapid", Quick: 6000, Thorough: 300000, QuickShards: 4, ThoroughShards: 16},
 		evid.Spec{Name: "TestPropWorkers", Kind: "rapid", Quick: 240, Thorough: 4800, QuickShards: 8, ThoroughShards: 16},
 		evid.Spec{Name: "TestPropWorkersSmall", Kind: "rapid", Quick: 1200, Thorough: 40000, QuickShards: 2, ThoroughShards: 8},
-		evid.Spec{Name: "TestPropCLI", Kind: "rapid", Quick: 64, Thorough: 1600, QuickShards: 4, ThoroughShards: 16},
+		evid.Spec{Name: "TestPropCLI", Kind: "rapid", Quick: 80, Thorough: 2000, QuickShards: 4, ThoroughShards: 16},
 		evid.Spec{Name: "TestPropLarge", Kind: "rapid", Quick: 8, Thorough: 64, QuickShards: 8, ThoroughShards: 16},
 		evid.Spec{Name: "TestPropCLILarge", Kind: "rapid", Quick: 3, Thorough: 32, QuickShards: 3, ThoroughShards: 16},
+		evid.Spec{Name: "TestPropExactDist", Kind: "rapid", Quick: 6000, Thorough: 160000, QuickShards: 4, ThoroughShards: 16},
+		evid.Spec{Name: "TestPropCLIHistory", Kind: "rapid", Quick: 192, Thorough: 3200, QuickShards: 6, ThoroughShards: 16},
 	)
 	evid.Commands("obiclean")
-	evid.Note("rule", "exact: 1-4 samples of up to 60 sequences (seeds, stars, chains, two-level hubs of one-difference variants in and out of homopolymers, 2-3 difference variants, unrelated sequences, ties; in half of the data sets a part of the symbols of the seeds and of the edits are IUPAC ambiguity codes, compared strictly; counts through merged_sample maps or sample/count attributes) built through hook H4 at distance 1, ratio 1 with 1-8 workers and compared with the model edge(s->f) <=> count(f)>count(s) and Levenshtein(s,f)=1 (full-matrix DP), status from out-/in-degree, mutation applied to the father gives the son; non-trivial = the model graph has at least one edge. workers: one to three abundant sequences with 100-1000 sons at distance 1 (100-230 sons carrying 1-3 differences at distance 2..3; a third of the data sets with ambiguity codes in fathers and sons), every distance 1..3 x ratio {1,0.5,0.1}, H4 with 1 worker vs three worker counts from 2..32, repeated 3 (distance>1: 2) times: nodes (count, SonCount, weight, status) and edge sets equal, SonCount = in-degree, and at the defaults equal to the model; non-trivial = some node has at least 2 x (largest worker count) sons. workers_small: the same comparison on the small data sets. large: a compact description (seed, shape) rebuilt into 4 000 - 40 000 records forming clusters (pairs, stars, big stars, two-level; dense or sparse; 1-5 samples; reversed abundances = sons with hundreds of fathers; ties; ambiguity codes) with 8 600 - 30 000 links in ONE sample, distance 1, ratio 1 or 0.5: H4 with 1 worker equals the model (indexed neighbour search, every candidate confirmed by the one-edit predicate, cross-checked against the pairwise model on every small data set) and H4 with two worker counts from 2..32 equals the 1-worker result; non-trivial = the largest sample holds at least 8 000 links. cli: the obiclean command on generated files, --max-cpu 1..32 x --batch-size x arrival-order jitter, repeated runs: per record obiclean_status, obiclean_weight, obiclean_head, the four counters, obiclean_mutation, merged_sample and count equal in all runs, -H keeps exactly the head records, and at the defaults status/mutation/weights equal to the model; a quarter of the files carry the annotations of an earlier obiclean run on an earlier state of the data set (counts changed, records and samples dropped or added), a quarter arbitrary well-typed obiclean_* annotations: the output must equal the output for the same file without them; non-trivial = at least one record is internal in some sample. cli_large: the command on a large file (at least 17 200 links in one sample), reference run with 1-3 cpus against the model and against a run with another --max-cpu; non-trivial = at least 8 000 links per worker of the reference run. Distinct = hash of the data set (or of its description) and options.")
+	evid.Note("rule", "exact: 1-4 samples of up to 60 sequences (seeds, stars, chains, two-level hubs of one-difference variants in and out of homopolymers, 2-3 difference variants, unrelated sequences, ties; in half of the data sets a part of the symbols of the seeds and of the edits are IUPAC ambiguity codes, compared strictly; counts through merged_sample maps or sample/count attributes) built through hook H4 at distance 1, ratio 1 with 1-8 workers and compared with the model edge(s->f) <=> count(f)>count(s) and Levenshtein(s,f)=1 (full-matrix DP), status from out-/in-degree, mutation applied to the father gives the son; non-trivial = the model graph has at least one edge. workers: one to three abundant sequences with 100-1000 sons at distance 1 (100-230 sons carrying 1-3 differences at distance 2..3; a third of the data sets with ambiguity codes in fathers and sons), every distance 1..3 x ratio {1,0.5,0.1}, H4 with 1 worker vs three worker counts from 2..32, repeated 3 (distance>1: 2) times: nodes (count, SonCount, weight, status) and edge sets equal, SonCount = in-degree, and at the defaults equal to the model; non-trivial = some node has at least 2 x (largest worker count) sons. workers_small: the same comparison on the small data sets. large: a compact description (seed, shape) rebuilt into 4 000 - 40 000 records forming clusters (pairs, stars, big stars, two-level; dense or sparse; 1-5 samples; reversed abundances = sons with hundreds of fathers; ties; ambiguity codes) with 8 600 - 30 000 links in ONE sample, distance 1, ratio 1 or 0.5: H4 with 1 worker equals the model (indexed neighbour search, every candidate confirmed by the one-edit predicate, cross-checked against the pairwise model on every small data set) and H4 with two worker counts from 2..32 equals the 1-worker result; non-trivial = the largest sample holds at least 8 000 links. cli: the obiclean command on generated files, --max-cpu 1..32 x --batch-size x arrival-order jitter, repeated runs: per record obiclean_status, obiclean_weight, obiclean_head, the four counters, obiclean_mutation, merged_sample and count equal in all runs, -H keeps exactly the head records, and at the defaults status/mutation/weights equal to the model; a quarter of the files carry the annotations of an earlier obiclean run on an earlier state of the data set (counts changed, records and samples dropped or added), a quarter arbitrary well-typed obiclean_* annotations: the output must equal the output for the same file without them; non-trivial = at least one record is internal in some sample. cli_large: the command on a large file (at least 17 200 links in one sample), reference run with 1-3 cpus against the model and against a run with another --max-cpu; non-trivial = at least 8 000 links per worker of the reference run. Distinct = hash of the data set (or of its description) and options. zero counts (exact, workers_small, cli, exact_dist, cli_history): in 40 % of the small data sets merged_sample maps list samples with 0 reads (counts set to 0, absent samples listed with 0, dense sample x sequence tables, new one-difference variants listed with 0 reads in the samples of their parent): such a record is a node of count 0 of that sample, a leaf below stars and chains, judged by the same models. exact_dist: hook H4 at --distance 2..3, ratio 1, 1-8 workers on the small data sets or on data sets of 2-40 variants at 0..distance+1 true differences plus 0-3 positions carrying a different but IUPAC-compatible symbol (spread, anywhere or clustered; lengths 4-64 biased to 3+4*distance and 7+4*distance; ties; shuffled file order) compared with the model: one-difference links as above, then every sequence without one-difference father is linked to each sequence placed after it in the stable sort by count that is neither identical nor at one difference and that the LCS (full-matrix DP, IUPAC-compatible symbols match, shortest alignment) puts within the bound, the edge carrying that number of differences; status from both; non-trivial = the model holds at least one link of the second pass. The same model judges the one-worker graph of workers / workers_small and the statuses and obiclean_mutation keys of cli at distance >= 2, ratio 1 (in a fifth of the cli files and half of the workers_small data sets of distance >= 2 the data set comes from the bounded-variant generator). cli_history: two runs of the command, options of both drawn independently (-d 1..3, -r 1/0.5/0.1, -s absent/sample/pcr on data sets carrying merged_sample and merged_pcr, --min-eval-rate, long or short spellings, --max-cpu, -H for the first), files in FASTA or FASTQ, title lines of upstream files in JSON or OBI style, intermediate file = real output of the first run with JSON title lines or OBI style ones (-O / --output-OBI-header), records passed on verbatim or, when the data set evolved in between (counts changed, records dropped / added, samples added / removed), with only their input attributes rewritten: the second run on the intermediate file must write the same status, weight, mutation, head flag and counters as on the same records without obiclean annotations, the same with other --max-cpu / jitter, every output is checked for per record consistency and against the model (distance 1 or >= 2) at ratio 1; non-trivial = the model graph of the first run has a link and the second run differs from the first in distance, ratio, sample attribute or data.")
 	evid.Main(m, "C13")
 }
 
@@ -359,7 +377,7 @@ func hashRecs(recs []rec) uint64 {
 
 func TestPropExact(t *testing.T) {
 	rapid.Check(t, func(rt *rapid.T) {
-		recs, cl := genDataset(rt, evid.Pick(40, 60))
+		recs, cl := genDatasetZ(rt, evid.Pick(40, 60))
 		c := exactCase{Recs: recs, Workers: rapid.SampledFrom([]int{1, 2, 3, 8}).Draw(rt, "workers")}
 		edges, mcl := modelClasses(recs)
 		if edges > 0 {
@@ -397,6 +415,12 @@ func checkWorkersWith(c workersCase, model graphModel) error {
 	}
 	if c.Dist == 1 && c.Ratio == 1.0 {
 		if err := compareAllWithModel(c.Recs, base, model); err != nil {
+			return fmt.Errorf("%s, 1 worker): %v", what, err)
+		}
+	}
+	if c.Dist >= 2 && c.Ratio == 1.0 {
+		// the model of --distance >= 2 (dist_test.go)
+		if err := compareAllWithDistModel(c.Recs, base, c.Dist); err != nil {
 			return fmt.Errorf("%s, 1 worker): %v", what, err)
 		}
 	}
@@ -478,13 +502,29 @@ func TestPropWorkers(t *testing.T) {
 
 func TestPropWorkersSmall(t *testing.T) {
 	rapid.Check(t, func(rt *rapid.T) {
-		recs, _ := genDataset(rt, evid.Pick(40, 60))
 		dist := rapid.IntRange(1, 3).Draw(rt, "distance")
+		var recs []rec
+		scl := []string{}
+		if dist >= 2 && rapid.Bool().Draw(rt, "bounded_variants") {
+			// variants at about `dist` true differences plus compatible ambiguity codes (dist_test.go)
+			recs, _ = genDistDataset(rt, dist, evid.Pick(30, 50))
+			scl = append(scl, "small:generator:bounded_variants")
+		} else {
+			recs, _ = genDatasetZ(rt, evid.Pick(40, 60))
+		}
 		ratio := rapid.SampledFrom([]float64{1, 0.5, 0.1}).Draw(rt, "ratio")
 		c := workersCase{Recs: recs, Dist: dist, Ratio: ratio, Workers: drawWorkers(rt), Reps: 1}
 		edges, _ := modelClasses(recs)
-		evid.Eval("workers_small", evid.Hash(hashRecs(recs), dist, ratio, fmt.Sprint(c.Workers)), edges > 0, c,
-			fmt.Sprintf("small:distance:%d", dist), fmt.Sprintf("small:ratio:%v", ratio))
+		nontrivial := edges > 0
+		if dist >= 2 {
+			ext, dcl := distClasses(recs, dist)
+			nontrivial = nontrivial || ext > 0
+			for _, x := range dcl {
+				scl = append(scl, "small:"+x)
+			}
+		}
+		scl = append(scl, fmt.Sprintf("small:distance:%d", dist), fmt.Sprintf("small:ratio:%v", ratio))
+		evid.Eval("workers_small", evid.Hash(hashRecs(recs), dist, ratio, fmt.Sprint(c.Workers)), nontrivial, c, scl...)
 		if err := checkWorkers(c); err != nil {
 			evid.Fail(rt, "workers_small", c, err)
 		}
